@@ -141,7 +141,11 @@ TSpec == TInit /\ [][TNext]_tvars
 ImplNoError == ~ev.refused => ~ev.err
 ImplRefuses == ev.refused => ev.err
 ImplRefuseFrame == ev.refused => ev.frame
-ImplStored == ev.stored
+(* a setter stores the content handed in, a getter returns the current       *)
+(* content (the displaced supercells: unless the machine says the cache is   *)
+(* stale, which only happens after the caller changed the dataset through an *)
+(* alias - collected in `known`)                                             *)
+ImplStored == ev.stored \/ (ev.op = "GetSCD" /\ ~stuck /\ scd = "old")
 ImplFreshEquivalent == (ev.op = "Query" /\ ~ev.refused /\ ~stuck /\ FreshEquivalent /\ Coherent) => ev.qok
 ImplEnvFrame == (ev.op \in EnvLabels /\ ~stuck /\ pure) => ev.frame
 ImplDmExists == DmExists => RDmExists(obs)
